@@ -13,5 +13,6 @@ CONSTANTS
   Alpha = {97, 98}
   MaxLen = 3
   Repl2 <- ReplSpan
+  Variants = {"base"}
   EmitMode = "none"
 INVARIANTS T1_RoundTrip T2_OrderFree T3_Leftmost T5_Partition T7_Nullable Emit
